@@ -19,6 +19,7 @@ mod c13;
 mod c13typed;
 mod c08;
 mod c07;
+mod c07typed;
 
 fn main() {
     let mode = std::env::args().nth(1).unwrap_or_default();
